@@ -102,9 +102,12 @@ fn draw_compile(verif_seed: u64, round: u64) -> Result<CScenario, String> {
     let small: Vec<usize> = c.entries.iter().enumerate().filter(|(_, e)| e.opts.is_empty() && e.text.len() < 6000 && (e.id.starts_with("snap_") || e.id.starts_with("pdltests_") || e.id.starts_with("hand_") || e.id.starts_with("example_"))).map(|(i, _)| i).collect();
     let bs = [Backend::Rust, Backend::Python, Backend::Cxx, Backend::Json];
     let shared_file = rng.below(2) == 0;
-    let e = &c.entries[*rng.pick(&small)];
+    // three times out of four a description with inheritance: parents enumerate their children,
+    // the kind of derived, lazily built information a shared `File` may start to cache
+    let with_children: Vec<usize> = small.iter().copied().filter(|i| { let t = &c.entries[*i].text; t.lines().any(|l| { let l = l.trim_start(); (l.starts_with("packet ") || l.starts_with("struct ")) && l.split('{').next().map(|h| h.contains(" : ")).unwrap_or(false) }) }).collect();
+    let e = if !with_children.is_empty() && rng.below(4) != 0 { &c.entries[*rng.pick(&with_children)] } else { &c.entries[*rng.pick(&small)] };
     let mut jobs = Vec::new();
-    let n = rng.range(2, 3) as usize;
+    let n = rng.range(2, 4) as usize;
     if shared_file {
         // several backends (possibly the same one twice) on ONE analyzed file, at the same time
         for i in 0..n {
